@@ -125,6 +125,15 @@ CHECKS = {
             "thorough) over the property's alphabet plus random names to length 64; independent injectivity and "
             "plain-entry oracle on the implementation's own outputs.",
             NOTE + " Modelled not verified: percent_encoding crate, Url::join on such segments.", "5/C16"),
+    "C17": ("Coq proof about the carry-over semantics of the editor's update path (entries merge, delegations, extras); "
+            "end-to-end correspondence: from_repo -> bump -> add -> sign -> write, metadata compared member by member",
+            "Theorem: an update changes nothing but the entries deliberately added (an added name overrides), keeps the "
+            "delegation structure with every delegated role's file, and keeps the unrecognised top-level members of targets, "
+            "snapshot and timestamp; pre-repair variant refuted (F10). Tied to the code by running the real editor on "
+            "generated repositories (custom data, extras at every top level, nested delegated roles, both settings), comparing "
+            "old and new metadata after JSON parsing, checking delegated files byte-for-byte and loading the result with the "
+            "real client; the model is run on the abstracted views.",
+            NOTE + " The model represents verbatim-copied components by identities (hash of the JSON value).", "5/C17"),
 }
 
 PENDING_REASON = "check not yet built in this revision of /verif (design exists in DESIGN.md section 5); no claim made"
